@@ -56,7 +56,7 @@ def threshold_packs(tier, sizes=(7, 8)):
         for k in sizes:
             combos = list(itertools.combinations_with_replacement(pool, k))
             random.Random(B * 100 + k).shuffle(combos)
-            for m in combos[: (120 if tier == "quick" else 1200)]:
+            for m in combos[: (2000 if tier == "quick" else 20000)]:
                 out.append({"values": sorted(m, reverse=True), "B": B})
     return out
 
